@@ -330,7 +330,9 @@ var kaChecked int
 
 func c16Reconn(rng *rand.Rand) (sig, detail string, trace []string, shape string) {
 	ping := []int{0, 2, 3, 5}[rng.Intn(4)]
-	sc := scen.Scenario{Client: "reconnect", Cfg: scen.BrokerCfg{Method: "A", Session: "keep"}, WaitBaseMs: 1, WaitMaxMs: 2, TimeoutMs: 15, PingMs: ping, KeepOpen: true}
+	sc := scen.Scenario{Client: "reconnect", Cfg: scen.BrokerCfg{Method: "A", Session: "keep"}, WaitBaseMs: 1, WaitMaxMs: 2, TimeoutMs: 15, PingMs: ping, KeepOpen: true,
+		// a transport whose Close takes a while gives the reader time to report its own (secondary) error first
+		CloseLinger: []int{0, 3, 10}[rng.Intn(3)], CloseStyle: []string{"pipe", "net", ""}[rng.Intn(3)]}
 	n := 1 + rng.Intn(4)
 	tag := 0
 	for i := 0; i < n; i++ {
